@@ -89,7 +89,7 @@ func (rc *runCase) setStartYear(y int) {
 }
 
 var validKinds = []string{"valid"}
-var errorKinds = []string{"missing-year-file", "empty-year-file", "ends-early", "short-last-year", "starts-late-same-year", "starts-late-next-year", "gap", "gap-1day", "gap-year-end", "bad-date-line", "extra-day-366"}
+var errorKinds = []string{"missing-year-file", "empty-year-file", "ends-early", "closing-day-uncovered", "short-last-year", "starts-late-same-year", "starts-late-next-year", "gap", "gap-1day", "gap-year-end", "bad-date-line", "extra-day-366"}
 
 // kindApplies: year-file defects exist in layout 0 only; an unparsable date token in layouts 1, 2
 // only (the day column of a year file goes through ValAsInt: log.Fatal, the process ends)
@@ -165,6 +165,13 @@ func genRunCase(r *vh.Rng, name, kind string, layout int, fixed *[4]proj.Date) *
 		}
 		p.Cfg["AnnualOutputDate"] = fmt.Sprintf("\"%02d%02d\"", a.D, a.M)
 	}
+	if kind == "closing-day-uncovered" {
+		// the annual output on the configured end date 31.12. moves the last simulated day to 1 January of the next year
+		// (run.go:133-140); the weather input ends on 31.12.: the closing day has no record and the run must say so
+		e := p.End()
+		p.SetEnd(proj.Date{Y: e.Y, M: 12, D: 31})
+		p.Cfg["AnnualOutputDate"] = "\"3112\""
+	}
 	start, end := p.Start(), effEnd(p)
 	rc := &runCase{P: p, Spec: runSpec{Kind: kind, Layout: layout, Name: name, Start: start.String(), End: end.String()}}
 
@@ -201,6 +208,8 @@ func genRunCase(r *vh.Rng, name, kind string, layout int, fixed *[4]proj.Date) *
 		empty[r.Range(start.Y, end.Y)] = true
 	case "ends-early":
 		fe = proj.Date{Y: r.Range(start.Y, end.Y-1), M: 12, D: 31}
+	case "closing-day-uncovered":
+		fe = proj.Date{Y: end.Y - 1, M: 12, D: 31}
 	case "short-last-year":
 		fe = proj.FromZ(r.Range(start.Z(), end.Z()-1))
 		if fe.M == 12 && fe.D == 31 {
